@@ -19,7 +19,7 @@ for id in $IDS; do
   out="$(cd /verif && ./run.sh "$id" "$TIER" 2>&1)"; rc=$?
   nv=$(printf '%s\n' "$out" | grep -c '^VIOLATION')
   case $rc in
-    0) echo "$id MISSED" ;;
+    0) if printf '%s\n' "$out" | grep -q 'exhaustive=false'; then echo "$id MISSED (but the run was cut by its budget: exhaustive=false)"; else echo "$id MISSED"; fi ;;
     1) echo "$id DETECTED ($nv violation lines): $(printf '%s\n' "$out" | grep '^--- ' | head -3 | tr '\n' ' ')" ;;
     *) echo "$id ENGINE-ERROR: $(printf '%s\n' "$out" | grep -i 'engine error' | head -2 | tr '\n' ' ')" ;;
   esac
